@@ -253,6 +253,25 @@ func TestC19(t *testing.T) {
 			}
 		})
 		rep.Journal(map[string]interface{}{"scenario": s, "part": "after the library-function mocks"})
+		// large by-value arrays, long slices, long strings as arguments and results
+		try("long values", func() {
+			ba := mocker.Create()
+			defer ba.Reset()
+			var d [32]byte
+			for i := range d {
+				d[i] = byte(i + k)
+			}
+			ba.Func(FArr).Apply(func(x [32]byte, y [20]int, zs []int64, s string) ([32]byte, [17]string) {
+				rec("cb FArr %d %d %d %d", x[31], y[19], len(zs), len(s))
+				x[0]++
+				return x, [17]string{16: "last"}
+			})
+			r, ss := FArr(d, [20]int{19: k}, make([]int64, 300), strings.Repeat("x", 5000))
+			rec("FArr -> %d %d %s", r[0], r[31], ss[16])
+			ba.Func(FArr2).Return(d, [64]int{63: 7})
+			r2, r3 := FArr2()
+			rec("FArr2 stubbed -> %d %d", r2[31], r3[63])
+		})
 		// configuration and calls issued from frames whose file name has no directory (//line directives)
 		try("generated-code frames", func() {
 			bg := mocker.Create()
@@ -442,3 +461,9 @@ func burn(n int) int {
 	}
 	return burn(n-1) + int(pad[n])
 }
+
+//go:noinline
+func FArr(x [32]byte, y [20]int, zs []int64, s string) ([32]byte, [17]string) { return x, [17]string{} }
+
+//go:noinline
+func FArr2() ([32]byte, [64]int) { return [32]byte{}, [64]int{} }
